@@ -6,4 +6,7 @@ func init() {
 	if Get("C15") == nil {
 		Register("C15", func(c *Ctx) { c15Guards(c) })
 	}
+	if Get("C18") == nil {
+		Register("C18", func(c *Ctx) { c18EncoderTotal(c); c18StreamConvention(c) })
+	}
 }
